@@ -1446,11 +1446,43 @@ impl<'l> CelCompiler<'l> {
         Ok(inits)
     }
 
+    /// True if the code (or any code block nested in it) calls `now` or the
+    /// zero-argument `timestamp`, whose value depends on when they run.
+    fn reads_clock(bc: &crate::types::CelByteCode) -> bool {
+        let mut prev: Option<&ByteCode> = None;
+
+        for code in bc.iter() {
+            match (prev, code) {
+                (_, ByteCode::Push(CelValue::Ident(name))) if name == "now" => return true,
+                (Some(ByteCode::Push(CelValue::Ident(name))), ByteCode::Call(0))
+                    if name == "timestamp" =>
+                {
+                    return true
+                }
+                (_, ByteCode::Push(CelValue::ByteCode(nested))) => {
+                    if Self::reads_clock(nested) {
+                        return true;
+                    }
+                }
+                _ => {}
+            }
+            prev = Some(code);
+        }
+
+        false
+    }
+
     #[inline]
     fn check_for_const(&self, member_prime_node: CompiledProg) -> CompiledProg {
         let mut i = Interpreter::empty();
         i.add_bindings(&self.bindings);
         let bc = member_prime_node.into_unresolved_bytecode().resolve();
+
+        if Self::reads_clock(&bc) {
+            // now() and timestamp() must be evaluated at every execution
+            return CompiledProg::with_bytecode(bc);
+        }
+
         let r = i.run_raw(&bc, true);
 
         match r {
